@@ -25,8 +25,17 @@ type c15Sys struct {
 	release []chan struct{}
 }
 
+var c15SysCount int
+
+// every other system is a connection configured for parallel message handling: that setting is about the READ side, the
+// asynchronous queue of the connection is the same single worker
 func c15NewSys() (*c15Sys, error) {
-	conn, _, err := clientConn(&gws.ClientOption{}, &recHandler{}, newMemConn(), "", nil)
+	c15SysCount++
+	opt := &gws.ClientOption{}
+	if c15SysCount%2 == 0 {
+		opt = &gws.ClientOption{ParallelEnabled: true, ParallelGolimit: 4}
+	}
+	conn, _, err := clientConn(opt, &recHandler{}, newMemConn(), "", nil)
 	if err != nil {
 		return nil, err
 	}
